@@ -56,9 +56,30 @@ Print Assumptions C07_segmentation_client.
    some Connection field lists "upgrade", exactly one Sec-WebSocket-Version denoting a configured version, no duplicate
    subprotocol, at most one Origin (header chosen by version) which must be permitted as a WHOLE, exactly one 24-character
    key = 22 base64 characters + "==", at most one Sec-WebSocket-Extensions, connection count within the limit *)
-Theorem C07_server_exact : forall c e header, (exists rq key, s_validate c e header = VOk rq key) <-> rfc4_ok c e header.
+Theorem C07_server_exact_lexed : forall c e header, (exists rq key, s_validate c e header = VOk rq key) <-> rfc4_ok c e header.
 Proof. exact s_validate_exact. Qed.
-Print Assumptions C07_server_exact.
+Print Assumptions C07_server_exact_lexed.
+
+(* FULL STRENGTH (against the RFC 7230 line structure: lines end with CR LF, a bare LF is tolerated, nothing else ends a line):
+     forall c e header, (exists rq key, s_validate c e header = VOk rq key) <-> rfc4_ok_on c e (rfc_lines header)
+   is FALSE of the faithful model: str.splitlines also ends a line at VT FF FS GS RS NEL and at a bare CR, so a request whose
+   only Sec-WebSocket-Key sits inside a Cookie value after 0x85 is admitted (known finding
+   server.processHandshake/ACCEPTS/grammar/syntax/linebreak-in-value; the witness W_REQUEST is the replay) *)
+Theorem C07_server_exact_refuted :
+  exists c e header, ~ ((exists rq key, s_validate c e header = VOk rq key) <-> rfc4_ok_on c e (rfc_lines header)).
+Proof. exact server_exact_rfc_refuted. Qed.
+Print Assumptions C07_server_exact_refuted.
+
+(* what does hold: exactness for every header block in which only CR LF and LF act as line ends *)
+Theorem C07_server_exact_partial : forall c e header, crlf_only header ->
+  ((exists rq key, s_validate c e header = VOk rq key) <-> rfc4_ok_on c e (rfc_lines header)).
+Proof. exact server_exact_rfc_partial. Qed.
+Print Assumptions C07_server_exact_partial.
+
+(* on such blocks the two ways of cutting lines coincide *)
+Theorem C07_lines_agree : forall s, crlf_only s -> splitlines s = rfc_lines s.
+Proof. exact splitlines_rfc. Qed.
+Print Assumptions C07_lines_agree.
 
 (* the connection ends OPEN iff the header block is complete, validated, and the user callbacks admit it *)
 Theorem C07_server_open : forall c e data,
@@ -103,10 +124,26 @@ Print Assumptions C07_server_offers.
 (* OPEN with subprotocol proto and extensions exts iff: HTTP/1.1 101, exactly one Upgrade field = websocket, a Connection
    field listing upgrade, exactly one Sec-WebSocket-Accept equal to the digest of ITS OWN key, at most one extension header
    naming at most one registered PMCE approved by its policy, at most one subprotocol header naming one it requested *)
-Theorem C07_client_exact : forall c e key data proto exts rest,
+Theorem C07_client_exact_lexed : forall c e key data proto exts rest,
   c_process c e key data = COpen proto exts rest <-> exists h, split_eoh data = Some (h, rest) /\ client_ok c e key h proto exts.
 Proof. exact c_process_open_iff. Qed.
-Print Assumptions C07_client_exact.
+Print Assumptions C07_client_exact_lexed.
+
+(* FULL STRENGTH against the RFC line structure is false for the same reason (known finding
+   client.processHandshake/ACCEPTS/grammar/syntax/linebreak-in-value; witness W_REPLY: the digest only inside "X-Info: a<FS>...") *)
+Theorem C07_client_exact_refuted :
+  exists c e key data proto exts rest,
+    ~ (c_process c e key data = COpen proto exts rest <->
+       exists h, split_eoh data = Some (h, rest) /\ client_ok_on c e key (rfc_lines h) proto exts).
+Proof. exact client_exact_rfc_refuted. Qed.
+Print Assumptions C07_client_exact_refuted.
+
+Theorem C07_client_exact_partial : forall c e key data proto exts rest,
+  (forall h, split_eoh data = Some (h, rest) -> crlf_only h) ->
+  (c_process c e key data = COpen proto exts rest <->
+   exists h, split_eoh data = Some (h, rest) /\ client_ok_on c e key (rfc_lines h) proto exts).
+Proof. exact client_exact_rfc_partial. Qed.
+Print Assumptions C07_client_exact_partial.
 
 (* ---- the request targets exactly host, port and resource of the factory's URL ---- *)
 Theorem C07_request_target_syntax : forall cc key,
@@ -162,6 +199,14 @@ Theorem C07_interop_segmented : forall cc sc e nonce,
     (forall q, proto = Some q -> In q (c_protocols cc)).
 Proof. exact interop_runs. Qed.
 Print Assumptions C07_interop_segmented.
+
+(* ---- the connection limit over any history of connections on one factory ---- *)
+(* countConnections always equals the number of OPEN connections and, with maxConnections > 0, never exceeds it *)
+Theorem C07_limit : forall mx ops,
+  let st := f_run mx ops in
+  f_count st = n_open (f_conns st) /\ (0 < mx -> n_open (f_conns st) <= mx).
+Proof. exact f_run_invariant. Qed.
+Print Assumptions C07_limit.
 
 (* ---- non-vacuity ---- *)
 (* RFC 6455 section 1.3 example through the model's base64 and the Gallina SHA-1 *)
@@ -283,3 +328,19 @@ Proof.
       intros q Hq. apply find_some in Hq. tauto.
     + rewrite Hx. discriminate.
 Qed.
+
+(* the refutation witnesses are outside, ordinary requests inside, the domain of the partial theorems *)
+Example C07_witness_partial_domain :
+  ~ crlf_only W_REQUEST /\ ~ crlf_only W_REPLY /\
+  crlf_only (lit "GET / HTTP/1.1" ++ CRLF ++ lit "Host: a" ++ [10] ++ lit "X: caf" ++ [233; 0; 9] ++ CRLF ++ CRLF).
+Proof.
+  split; [apply witnesses_not_crlf_only|]. split; [apply witnesses_not_crlf_only|].
+  split; [|vm_compute; reflexivity]. repeat constructor; vm_compute; intuition discriminate.
+Qed.
+
+(* limit 1: the second and third peers are refused while the first is open; after it leaves, exactly one more is admitted *)
+Example C07_witness_limit :
+  f_trace 1 f_init [FOpen; FOpen; FOpen; FLose 0; FOpen; FOpen] =
+    [(1, [true]); (1, [true; false]); (1, [true; false; false]); (0, [false; false; false]);
+     (1, [false; false; false; true]); (1, [false; false; false; true; false])].
+Proof. vm_compute. reflexivity. Qed.
